@@ -353,7 +353,11 @@ fn scheduled_write(f: &mut F<SendRequest>, reference: &ParsedHead, ref_bytes: &[
         let r = f.write(&mut buf);
         rec.ev(|| format!("write(out={}) at offset {} (next unit {} bytes) -> {:?}", size, off, l, r));
         let fits = l <= size;
-        rec.cov(&format!("unit#{}/{}/{}", if next_unit == 0 { "line" } else if next_unit + 1 == reference.units.len() { "last+blank" } else { "header" }, if fits { "fits" } else { "overflow" }, if size == l { "exact" } else if size + 1 == l { "one-short" } else { "other" }));
+        if next_unit + 2 == reference.units.len() && fits && size < l + 2 {
+            // room for the last header line and not for the empty line behind it
+            rec.cov("unit#header/fits/last-without-blank");
+        }
+        rec.cov(&format!("unit#{}/{}/{}", if next_unit == 0 { "line" } else if next_unit + 1 == reference.units.len() { "blank" } else { "header" }, if fits { "fits" } else { "overflow" }, if size == l { "exact" } else if size + 1 == l { "one-short" } else { "other" }));
         if was_ready {
             rec.fail("C02/ready-before-complete", format!("can_proceed() true at offset {} of {}", off, total));
             return false;
@@ -541,8 +545,27 @@ fn call_case(rng: &mut Rng, rec: &mut Rec) {
     let eff = initial_eff(&case.cfg);
     rec.ev(|| format!("Call API request: {}", case.cfg.describe()));
     let sizes: Vec<usize> = (0..400).map(|_| match rng.below(4) { 0 => rng.usize_in(0, 40), 1 => rng.usize_in(0, 120), 2 => 4096, _ => rng.usize_in(0, 400) }).collect();
+    // line ends of the same request written in one go by a fresh call: half of the buffer sizes sit on them
+    let ref_units: Vec<usize> = {
+        let mut big = vec![0u8; 1 << 18];
+        let n = if case.body_follows {
+            Call::with_body(build_request(&case.cfg)).ok().and_then(|mut c| c.write(&[], &mut big).ok()).map(|r| r.1)
+        } else {
+            Call::without_body(build_request(&case.cfg)).ok().and_then(|mut c| c.write(&mut big).ok())
+        };
+        n.and_then(|n| parse_request_head_strict(&big[..n]).ok()).map(|h| h.units).unwrap_or_default()
+    };
+    let mut r2 = rng.fork();
+    let mut near_line = |off: usize, s: usize| -> usize {
+        match ref_units.iter().find(|u| **u > off) {
+            Some(u) if r2.chance(1, 2) => (u - off + 2).saturating_sub(r2.usize_in(0, 3)),
+            _ => s,
+        }
+    };
     let mut out = Vec::new();
     let mut chunks = vec![];
+    // (offset before the call, buffer size, refused with OutputOverflow)
+    let mut attempts: Vec<(usize, usize, bool)> = vec![];
     if case.body_follows {
         let mut c = match Call::with_body(build_request(&case.cfg)) {
             Ok(c) => c,
@@ -550,10 +573,12 @@ fn call_case(rng: &mut Rng, rec: &mut Rec) {
         };
         let mut big = false;
         for (i, s) in sizes.iter().enumerate() {
-            let size = if big || i > 380 { 8192 } else { *s };
+            let size = if big || i > 380 { 8192 } else { near_line(out.len(), *s) };
             let mut buf = vec![0u8; size];
             rec.call();
-            match c.write(&[], &mut buf) {
+            let r = c.write(&[], &mut buf);
+            attempts.push((out.len(), size, matches!(r, Err(Error::OutputOverflow))));
+            match r {
                 Ok((0, n)) => {
                     out.extend_from_slice(&buf[..n]);
                     chunks.push(out.len());
@@ -583,10 +608,12 @@ fn call_case(rng: &mut Rng, rec: &mut Rec) {
             if c.is_finished() {
                 break;
             }
-            let size = if big || i > 380 { 8192 } else { *s };
+            let size = if big || i > 380 { 8192 } else { near_line(out.len(), *s) };
             let mut buf = vec![0u8; size];
             rec.call();
-            match c.write(&mut buf) {
+            let r = c.write(&mut buf);
+            attempts.push((out.len(), size, matches!(r, Err(Error::OutputOverflow))));
+            match r {
                 Ok(n) => {
                     out.extend_from_slice(&buf[..n]);
                     chunks.push(out.len());
@@ -613,6 +640,21 @@ fn call_case(rng: &mut Rng, rec: &mut Rec) {
             if c != 0 && !h.units.contains(&c) {
                 return rec.fail("C02/partial-line", format!("Call API: a call ended at offset {} inside a line", c));
             }
+        }
+        // refused exactly when not even the next line fits
+        for (off, size, refused) in attempts {
+            if off >= h.len {
+                continue;
+            }
+            let next = h.units.iter().find(|u| **u > off).copied().unwrap_or(h.len);
+            let l = next - off;
+            if refused && l <= size {
+                return rec.fail("C02/overflow-although-line-fits", format!("Call API: write(out={}) at offset {} -> OutputOverflow but the next line is {} bytes", size, off, l));
+            }
+            if !refused && l > size && !h.units.contains(&off) {
+                return rec.fail("C02/partial-line", format!("Call API: offset {} is inside a line", off));
+            }
+            rec.cov("call/overflow-checked");
         }
         rec.cov(if case.body_follows { "call/with-body" } else { "call/without-body" });
     }
@@ -649,7 +691,7 @@ impl Property for P {
     }
     fn floors(&self, _tier: Tier) -> Vec<(String, u64)> {
         [
-            "unit#line/overflow/one-short", "unit#line/fits/exact", "unit#header/overflow/one-short", "unit#header/fits/exact", "unit#last+blank/overflow/one-short", "unit#last+blank/fits/exact",
+            "unit#line/overflow/one-short", "unit#line/fits/exact", "unit#header/overflow/one-short", "unit#header/fits/exact", "unit#blank/overflow/one-short", "unit#blank/fits/exact", "unit#header/fits/last-without-blank", "call/overflow-checked",
             "depth=0/body/*", "depth=0/no-body/*", "depth=1/*", "depth=2/*", "depth=3/*", "body/chunked", "body/sized", "after-complete/*", "call/with-body", "call/without-body", "query/headers_map-between-writes",
         ]
         .iter()
